@@ -12,7 +12,8 @@ RULE = (
     "generated forecaster specifications (plain and composite, nesting depth <= 2), positive "
     "series on a contiguous integer index whose origin is biased towards the boundaries "
     "(start 0, end 0, negative), out-of-sample horizons (relative or absolute; at fit or at "
-    "predict), 0..3 updates; oracle = index/cutoff arithmetic and the index-shift metamorphic "
+    "predict), 0..3 updates with update_params drawn per update, optionally followed by a late "
+    "revision batch that ends before the cutoff, float or int64 data; oracle = index/cutoff arithmetic and the index-shift metamorphic "
     "relation (a second forecaster built from the same spec on labels shifted by k). "
     "non-trivial = gapped horizon, or index origin != 0, or a composite, or >= 1 update; "
     "distinct = distinct canonical JSON of the case"
